@@ -89,6 +89,18 @@ def run_session_pair(prog):
         shutil.rmtree(d, ignore_errors=True)
 
 
+def run_multi_session(files):
+    d = driver.scratch_dir()
+    try:
+        driver.write_project(d, files)
+        r1 = driver.run_pytest(d, ["--inline-snapshot=create,fix"])
+        r2 = driver.run_pytest(d, ["--inline-snapshot=disable"])
+        return {"rc1": r1["rc"], "rc2": r2["rc"], "tail1": (r1["stdout"] + r1["stderr"])[-1000:], "tail2": (r2["stdout"] + r2["stderr"])[-1500:],
+                "after": {n: (d / n).read_text() for n in files}}
+    finally:
+        shutil.rmtree(d, ignore_errors=True)
+
+
 def run(ctx: Ctx):
     ctx.coverage["rule"] = (
         "A: containers (list, tuple, dict, call) with 0-5 elements, comments/commas/trailing commas in the gaps, any deletions and insertions: the real "
@@ -189,6 +201,19 @@ def run(ctx: Ctx):
             ctx.report("after a create,fix session the tests fail with --inline-snapshot=disable", {"kind": "session", "source": p["source"], "after": o["after"], "output": o["tail2"]},
                        tag="F-39" if dup_key_getitem(p["source"]) else None)
     ctx.coverage["oracle"]["session_pairs"] = len(sp)
+    # several test files in one create,fix session: every file has something to create, exactly one of them also something to fix
+    # (whatever order the files are registered in, the file with the fix is not always the last one)
+    for k in range(3):
+        files = {f"test_m{j}.py": "from inline_snapshot import snapshot\n\n\ndef test_c():\n    assert %d == snapshot()\n" % j
+                 + ("\n\ndef test_f():\n    assert 'new' == snapshot('old')\n    assert [1, 2] == snapshot([1])\n" if j == k else "") for j in range(3)}
+        o = run_multi_session(files)
+        ctx.count(("multi-session", k), True)
+        if o["rc1"] not in (0, 1):
+            ctx.report(f"create,fix session over three files: exit status {o['rc1']}", {"kind": "multi-session", "files": files, "output": o["tail1"]})
+        elif o["rc2"] != 0:
+            ctx.report(f"after a create,fix session over three files (fix pending only in test_m{k}.py) the tests fail with --inline-snapshot=disable",
+                       {"kind": "multi-session", "files": files, "after": o["after"], "output": o["tail2"]})
+    ctx.coverage["oracle"]["multi_file_sessions"] = 3
 
 
 def replay(ctx: Ctx, data):
@@ -199,6 +224,10 @@ def replay(ctx: Ctx, data):
         from .. import callassign as ca
         return ca.replay_case(data["case"])
     c = data["case"]
+    if c.get("kind") == "multi-session":
+        o = run_multi_session(c["files"])
+        print(o["tail2"][-600:])
+        return o["rc1"] in (0, 1) and o["rc2"] == 0
     if c.get("kind") == "su":
         case = c["case"]
         case["g0"] = [tuple(x) for x in case["g0"]]
